@@ -11,7 +11,10 @@ edits (it IS that generator, subclassed), plus:
     all source files it reads (same-size contents) -- and later phases that put a SUBSET of them
     back to the values they had before (A -> B -> A on some, A -> B on the others);
   * edits of the SCRIPT of a script step that change the set of variables it amends (one dropped,
-    all dropped, one added, one replaced) while its declaration stays as it was.
+    all dropped, one added, one replaced) while its declaration stays as it was;
+  * steps whose command reads VX, VY and whose definition carries environment overrides for them
+    (leading VAR=value words or the env_overrides argument, through ``c01_overrides.client_step``),
+    and plan edits that remove all / remove one / change / add overrides of such a step.
 
 ``gen_subset_case`` is the small focused family of the same shape (1-3 steps, one multi-change,
 an optional unrelated phase, one subset revert, an optional last phase).
@@ -22,6 +25,7 @@ import copy
 import random
 
 from . import e3_gen
+from .c01_overrides import NAMES as OVR_NAMES, client_step
 from .e3 import Project
 
 ENV_NAMES = ["VA", "VB", "VC", "VD"]
@@ -38,16 +42,32 @@ def env_label(uid, env) -> str:
 
 def render(units: list) -> dict:
     prog = e3_gen.render(units)
-    readers = {f"t{u['id']}": u for u in e3_gen._all_steps(units)
-               if u["k"] == "step" and u.get("reads_env") and u.get("env")}
-    if not readers:
+    steps = e3_gen._all_steps(units)
+    readers = {f"t{u['id']}": u for u in steps if u["k"] == "step" and u.get("reads_env") and u.get("env")}
+    # steps whose command reads the overridable variables VX, VY; their definition may carry
+    # environment overrides (unit["ovr"], None = none), written as leading VAR=value words of
+    # the command or as the env_overrides argument (unit["ovr_form"]): see c01_overrides
+    ovr_units = {(f"t{u['id']}" if u["k"] == "step" else f"./w{u['id']}.py"): u for u in steps if u.get("reads_ovr")}
+    if not readers and not ovr_units:
         return prog
     for actions in prog["scripts"].values():
-        for a in actions:
-            if a.get("op") == "step" and a.get("label") in readers and a.get("env"):
-                label = env_label(readers[a["label"]]["id"], a["env"])
+        for i, a in enumerate(actions):
+            base = a.get("label")
+            if a.get("op") == "step" and base in readers and a.get("env"):
+                label = env_label(readers[base]["id"], a["env"])
                 prog["commands"][label] = [{"op": "getenv", "name": n} for n in a["env"]] + [{"op": "auto"}]
                 a["label"] = label
+            if a.get("op") in ("step", "run") and base in ovr_units:
+                u = ovr_units[base]
+                reads = [{"op": "getenv", "name": n} for n in OVR_NAMES]
+                if a["op"] == "step":
+                    body = prog["commands"].get(a["label"], [{"op": "auto"}])
+                    prog["commands"][a["label"]] = [x for x in body if x["op"] != "auto"] + reads + [{"op": "auto"}]
+                else:
+                    body = prog["scripts"][base[2:]]
+                    k = next(j for j, x in enumerate(body) if x["op"] == "auto")
+                    prog["scripts"][base[2:]] = body[:k] + reads + body[k:]
+                actions[i] = client_step(a, u.get("ovr"), u.get("ovr_form", "argument"))
     return prog
 
 
@@ -77,6 +97,8 @@ class _Gen(e3_gen._Gen):
         # a separate stream for the edits added later, so that the histories of the base stream
         # keep their shape
         self.rng2 = random.Random(f"c01-gen-amend-env-{seed}")
+        self.rng3 = random.Random(f"c01-gen-overrides-{seed}")
+        self.ovr_fresh = 0
 
     # units -----------------------------------------------------------------------------------
     def make_step(self, avail, *, script=None):
@@ -91,6 +113,11 @@ class _Gen(e3_gen._Gen):
             unit["amend_env"] = sorted(rng.sample(rest, min(len(rest), rng.randint(2, 3))))
         if unit["k"] == "step" and unit.get("env") and rng.random() < 0.7:
             unit["reads_env"] = True
+        if unit["k"] in ("step", "script") and self.rng3.random() < 0.3:
+            unit["reads_ovr"] = True
+            unit["ovr_form"] = "prefix" if unit["k"] == "script" or self.rng3.random() < 0.3 else "argument"
+            unit["ovr"] = {n: self._ovr_value() for n in OVR_NAMES if self.rng3.random() < 0.6} or None
+            self.stats.units["reads-overrides"] += 1
         n = len(unit.get("env", [])) + len(unit.get("amend_env", []))
         if n >= 2:
             self.stats.units["tracks-%d-vars" % min(n, 4)] += 1
@@ -155,6 +182,37 @@ class _Gen(e3_gen._Gen):
         self.stats.edits["revert_subset_" + what] += 1
         return edits
 
+    def _ovr_value(self) -> str:
+        self.ovr_fresh += 1
+        return f"ov{self.ovr_fresh}"
+
+    def override_change(self) -> bool:
+        """The plan is edited so that a step gets other environment overrides: all removed (most
+        often), one removed, one changed, one added; the rest of its definition stays."""
+        rng = self.rng3
+        cands = [u for u in e3_gen._all_steps(self.units) if u.get("reads_ovr")]
+        if not cands:
+            return False
+        with_ovr = [u for u in cands if u.get("ovr")]
+        u = rng.choice(with_ovr) if with_ovr and rng.random() < 0.8 else rng.choice(cands)
+        cur = dict(u.get("ovr") or {})
+        how = rng.choice(["remove-all", "remove-all", "remove-one", "change", "add"]) if cur else "add"
+        if how == "add" and len(cur) == len(OVR_NAMES):
+            how = "change"
+        if how == "remove-one" and len(cur) < 2:
+            how = "remove-all"
+        if how == "remove-all":
+            cur = {}
+        elif how == "remove-one":
+            del cur[rng.choice(sorted(cur))]
+        elif how == "change":
+            cur[rng.choice(sorted(cur))] = self._ovr_value()
+        else:
+            cur[rng.choice([n for n in OVR_NAMES if n not in cur])] = self._ovr_value()
+        u["ovr"] = cur or None
+        self.stats.edits["overrides_" + how] += 1
+        return True
+
     def amend_env_change(self) -> bool:
         """The script of a script step is edited so that it amends ANOTHER set of variables: one
         is dropped, all are dropped, one is added, one is replaced (the step itself stays declared
@@ -202,6 +260,9 @@ class _Gen(e3_gen._Gen):
             return pre
         edits = super().edit_phase()
         if self.rng2.random() < 0.18 and self.amend_env_change() and \
+                not any(e["op"] == "program" for e in edits):
+            edits.append({"op": "program", "program": None})
+        if self.rng3.random() < 0.15 and self.override_change() and \
                 not any(e["op"] == "program" for e in edits):
             edits.append({"op": "program", "program": None})
         for e in edits:
